@@ -26,9 +26,9 @@ struct Val {
     int get() const { return chk == ~v ? v : -7777; }
 };
 using Sig = cocls::signal<Val>;
-enum Op { ARRIVE0 = 0, ARRIVE1, ARRIVE2, LEAVE0, LEAVE1, LEAVE2, CONNECT_T, CONNECT_F, CALL_VAL, CALL_RV, CALL_LV, DROP_SIG, DROP_COL, COPY_COL, HOOKUP, HOOK_CALL, HOOK_DROP, CALL_ALIAS, NOPS };
+enum Op { ARRIVE0 = 0, ARRIVE1, ARRIVE2, LEAVE0, LEAVE1, LEAVE2, CONNECT_T, CONNECT_F, CALL_VAL, CALL_RV, CALL_LV, DROP_SIG, DROP_COL, COPY_COL, HOOKUP, HOOK_CALL, HOOK_DROP, CALL_ALIAS, COL_TO_SIG, NOPS };
 static const char *op_names[] = {"arrive0", "arrive1", "arrive2", "leave0", "leave1", "leave2", "connect_true", "connect_false", "call(value)", "call(rvalue)", "call(lvalue)",
-                                 "drop_signal", "drop_collector", "copy_collector", "hook_up", "hook_call", "hook_drop", "call(lvalue = the value stored by the previous call)"};
+                                 "drop_signal", "drop_collector", "copy_collector", "hook_up", "hook_call", "hook_drop", "call(lvalue = the value stored by the previous call)", "signal-from-collector-and-drop"};
 constexpr int NL = 3;
 
 struct World {
@@ -71,6 +71,7 @@ struct Model {
             case CALL_RV:
             case CALL_LV: return has_col;
             case CALL_ALIAS: return has_col && alias_val != 0;
+            case COL_TO_SIG: return has_col;  // one more handle for a moment: nothing changes
             case DROP_SIG: return has_sig;
             case DROP_COL: return has_col;
             case COPY_COL: return has_col && !has_col2;
@@ -255,6 +256,11 @@ static void run_case(seqx::Runner &R, const std::vector<int> &seq) {
                         return false;
                     });
                     break;
+                case COL_TO_SIG: {
+                    Sig extra = static_cast<Sig>(*w->col);  // e.g. made to connect one more listener; dropped again
+                    (void)extra;
+                    break;
+                }
                 case CALL_ALIAS:
                     if (!w->stored_ref) {
                         R.fail("signal/harness", "no receiver recorded the stored value");
